@@ -559,12 +559,14 @@ def diff(impl, ref, pre=()):
 # --------------------------------------------------------------------------- alias scan
 
 
-def dict_ids(root, seen=None):
-    """ids of every mutable container reachable from a plain python structure"""
+def dict_ids(root, seen=None, stop=()):
+    """ids of every mutable container reachable from a plain python structure (not descending into `stop`)"""
     seen = {} if seen is None else seen
     stack = [root]
     while stack:
         x = stack.pop()
+        if id(x) in stop:
+            continue
         if isinstance(x, dict):
             if id(x) in seen:
                 continue
@@ -578,7 +580,7 @@ def dict_ids(root, seen=None):
     return seen
 
 
-def object_graph_ids(obj):
+def object_graph_ids(obj, stop=()):
     """ids of every dict / list reachable from an object's instance attributes (no class attributes)"""
     seen = {}
     try:
@@ -587,7 +589,7 @@ def object_graph_ids(obj):
         attrs = {}
     for v in attrs.values():
         if isinstance(v, (dict, list)):
-            dict_ids(v, seen)
+            dict_ids(v, seen, stop)
     return seen
 
 
